@@ -334,7 +334,7 @@ class SymReal:
             if _infcmp(o):
                 return _builtin_float(o)
             return NotImplemented
-        return b - self
+        return SymReal.__sub__(b, self)  # explicit: ``b - self`` would re-enter a subclass's __rsub__
 
     def __mul__(self, o):
         if isinstance(o, np.ndarray):
